@@ -8,17 +8,12 @@ import (
 	_ "crypto/sha256"
 	_ "crypto/sha512"
 
-	"verifharness/common"
 	"verifharness/copyh"
 )
 
 func main() {
-	run := common.Start("C04")
-	run.Rule = "distinct (graph, root, initial destination, mode, store pairing, K, MapRoot/platform) whose reachable part has >= 3 nodes and meets an already-present node, a shared node, a duplicate or foreign successor or a subject link"
-	b := copyh.Budget{Main: 120, Contention: 120, Twin: 0, CbFail: 80, Reps: 0}
-	if run.Thorough() {
-		b = copyh.Budget{Main: 1200, Contention: 1500, Twin: 0, CbFail: 800, Reps: 4}
-	}
-	copyh.Drive(run, "C04", b)
-	run.Finish()
+	copyh.Main("C04",
+		"distinct (graph, root, initial destination, mode, store pairing, K, MapRoot/platform) whose reachable part has >= 3 nodes and meets an already-present node, a shared node, a duplicate or foreign successor or a subject link",
+		copyh.Budget{Main: 120, Contention: 120, Twin: 0, CbFail: 80, Reps: 0},
+		copyh.Budget{Main: 1200, Contention: 1500, Twin: 0, CbFail: 800, Reps: 4})
 }
